@@ -20,6 +20,8 @@ type c08Case struct {
 	S     int          `json:"s"`
 	N     int          `json:"n"`
 	Short bool         `json:"short_form,omitempty"` // `limit n` instead of `limit 0, n`
+	// Listed: kind select-in: the keys named by the statement (a superset of the stored keys)
+	Listed []string `json:"listed,omitempty"`
 	B     int          `json:"b"`
 	Mode  string       `json:"mode"`
 }
@@ -48,6 +50,17 @@ func (c *c08Case) base() string {
 		return "select value, count(1) where value ^= 'y' group by value order by value desc"
 	case "delete":
 		return "delete where value = 'y'"
+	case "select-in":
+		// a literal key list in which some listed keys are not stored (the store
+		// of this kind holds the 'y' pairs only): rows are what is stored, not what is listed
+		var ks []string
+		for i := 0; i < len(c.Listed); i++ {
+			ks = append(ks, "'"+c.Listed[i]+"'")
+		}
+		if len(ks) == 0 {
+			ks = []string{"'zz'"}
+		}
+		return "select * where key in (" + strings.Join(ks, ", ") + ")"
 	case "delete-in":
 		// a literal key set (point reads / direct-removal shortcut): the keys whose value is y
 		var ks []string
@@ -91,7 +104,7 @@ func (c08) Info() core.Info {
 	}
 }
 
-var c08Kinds = []string{"select", "ordered", "aggr", "aggr-ordered", "delete", "ordered-ties", "delete-in", "aggr-groups", "aggr-groups-ordered", "aggr-all", "aggr-all-ordered"}
+var c08Kinds = []string{"select", "ordered", "aggr", "aggr-ordered", "delete", "ordered-ties", "delete-in", "aggr-groups", "aggr-groups-ordered", "aggr-all", "aggr-all-ordered", "select-in"}
 
 type c08Unit struct {
 	kind string
@@ -148,8 +161,20 @@ func (c08) RunUnit(t core.Tier, u int, r *core.Reporter) {
 	}
 	modes := []string{drv.Row, drv.Batch}
 	run := func(ps []store.Pair, ss, ns []int) {
+		var listed []string
+		if un.kind == "select-in" {
+			var kept []store.Pair
+			for _, p := range ps {
+				listed = append(listed, p.K)
+				if p.V == "y" {
+					kept = append(kept, p)
+				}
+			}
+			listed = append(listed, "k998", "k999")
+			ps = kept
+		}
 		for _, mode := range modes {
-			base := c08Case{Kind: un.kind, Store: ps, B: un.b, Mode: mode}
+			base := c08Case{Kind: un.kind, Store: ps, B: un.b, Mode: mode, Listed: listed}
 			var unl *c08Unlimited
 			for _, s := range ss {
 				for _, n := range ns {
@@ -258,7 +283,7 @@ func c08RunUnlimited(c *c08Case) *c08Unlimited {
 		}
 	}
 	switch c.Kind {
-	case "select":
+	case "select", "select-in":
 		want = drv.PairsRows(acc)
 	case "ordered":
 		rev := append([]store.Pair(nil), acc...)
